@@ -28,6 +28,7 @@ import (
 	"time"
 
 	"github.com/blugelabs/bluge"
+	"github.com/blugelabs/bluge/numeric/geo"
 	"github.com/blugelabs/bluge/search"
 	"github.com/blugelabs/bluge/search/similarity"
 	segment "github.com/blugelabs/bluge_segment_api"
@@ -1205,11 +1206,16 @@ func bm25E2E(o Opts, rng *rand.Rand, w *cq.Writer, scale int) error {
 			return err
 		}
 		batch := bluge.NewBatch()
-		for _, d := range docs {
+		for di, d := range docs {
 			bd := bluge.NewDocument(d.id).AddField(bluge.NewTextField("body", strings.Join(d.body, " ")))
 			if len(d.title) > 0 {
 				bd.AddField(bluge.NewTextField("title", strings.Join(d.title, " ")))
 			}
+			// fields for the query kinds of bm25BoostKinds (own fields: the statistics of body/title stay as generated)
+			bd.AddField(bluge.NewTextField("ptext", strings.Join(d.body, " ")).SearchTermPositions())
+			bd.AddField(bluge.NewNumericField("num", float64(di)))
+			bd.AddField(bluge.NewDateTimeField("when", bm25E2eEpoch.Add(time.Duration(di)*time.Hour)))
+			bd.AddField(bluge.NewGeoPointField("loc", float64(di)*0.5, float64(di)*0.3))
 			batch.Insert(bd)
 		}
 		if err := wr.Batch(batch); err != nil {
@@ -1542,8 +1548,266 @@ func bm25E2E(o Opts, rng *rand.Rand, w *cq.Writer, scale int) error {
 				}
 			}
 		}
+		if err := bm25BoostKinds(w, rng, rd, docs[0].body, vocab); err != nil {
+			return err
+		}
 		rd.Close()
 		wr.Close()
+	}
+	return nil
+}
+
+var bm25E2eEpoch = time.Date(2020, 1, 1, 0, 0, 0, 0, time.UTC)
+
+type bm25Kind struct {
+	name string
+	mk   func(boost float64) bluge.Query // boost 0: SetBoost not called
+}
+
+// bm25BoostKinds: "a boost scales the score linearly" for every public query type that accepts
+// SetBoost (and boolean queries nesting them): the hits are the same and
+// score(boost c) = c * score(no boost) — bit for bit for c in {1, 0.5, 2} (scaling by a power of
+// two commutes with every rounding), within 512 ulp for c = 3 (one rounding per operation on the
+// way from the leaves).  With ExplainScores the explanation must still derive the score.
+func bm25BoostKinds(w *cq.Writer, rng *rand.Rand, rd *bluge.Reader, text []string, vocab []string) error {
+	t0, t1 := text[0], text[0]
+	if len(text) > 1 {
+		t1 = text[1]
+	}
+	sb := func(b float64, f func(float64)) {
+		if b != 0 {
+			f(b)
+		}
+	}
+	var kinds []bm25Kind
+	add := func(name string, mk func(boost float64) bluge.Query) { kinds = append(kinds, bm25Kind{name, mk}) }
+	add("term", func(b float64) bluge.Query {
+		q := bluge.NewTermQuery("alfa").SetField("body")
+		sb(b, func(b float64) { q.SetBoost(b) })
+		return q
+	})
+	for _, fz := range []struct {
+		term   string
+		f, pre int
+	}{{"alfa", 1, 0}, {"alfo", 1, 0}, {"brovo", 2, 1}, {"charlie", 0, 0}} {
+		fz := fz
+		add(fmt.Sprintf("fuzzy(%s,%d,%d)", fz.term, fz.f, fz.pre), func(b float64) bluge.Query {
+			q := bluge.NewFuzzyQuery(fz.term).SetField("body").SetFuzziness(fz.f).SetPrefix(fz.pre)
+			sb(b, func(b float64) { q.SetBoost(b) })
+			return q
+		})
+	}
+	for _, p := range []string{"al", "b", "c", ""} {
+		p := p
+		add("prefix("+p+")", func(b float64) bluge.Query {
+			q := bluge.NewPrefixQuery(p).SetField("body")
+			sb(b, func(b float64) { q.SetBoost(b) })
+			return q
+		})
+	}
+	for _, p := range []string{"*a", "b?avo", "*", "*l*"} {
+		p := p
+		add("wildcard("+p+")", func(b float64) bluge.Query {
+			q := bluge.NewWildcardQuery(p).SetField("body")
+			sb(b, func(b float64) { q.SetBoost(b) })
+			return q
+		})
+	}
+	for _, p := range []string{"[a-c].*", "(alfa|echo)", ".*o"} {
+		p := p
+		add("regexp("+p+")", func(b float64) bluge.Query {
+			q := bluge.NewRegexpQuery(p).SetField("body")
+			sb(b, func(b float64) { q.SetBoost(b) })
+			return q
+		})
+	}
+	add("termrange", func(b float64) bluge.Query {
+		q := bluge.NewTermRangeQuery("alfa", "delta").SetField("body")
+		sb(b, func(b float64) { q.SetBoost(b) })
+		return q
+	})
+	add("termrange-inclusive", func(b float64) bluge.Query {
+		q := bluge.NewTermRangeInclusiveQuery("bravo", "echo", true, true).SetField("body")
+		sb(b, func(b float64) { q.SetBoost(b) })
+		return q
+	})
+	add("numericrange", func(b float64) bluge.Query {
+		q := bluge.NewNumericRangeQuery(2, 9).SetField("num")
+		sb(b, func(b float64) { q.SetBoost(b) })
+		return q
+	})
+	add("numericrange-inclusive", func(b float64) bluge.Query {
+		q := bluge.NewNumericRangeInclusiveQuery(0, 5, true, true).SetField("num")
+		sb(b, func(b float64) { q.SetBoost(b) })
+		return q
+	})
+	add("daterange", func(b float64) bluge.Query {
+		q := bluge.NewDateRangeQuery(bm25E2eEpoch.Add(90*time.Minute), bm25E2eEpoch.Add(8*time.Hour)).SetField("when")
+		sb(b, func(b float64) { q.SetBoost(b) })
+		return q
+	})
+	add("geoboundingbox", func(b float64) bluge.Query {
+		q := bluge.NewGeoBoundingBoxQuery(-1, 5, 4, -1).SetField("loc")
+		sb(b, func(b float64) { q.SetBoost(b) })
+		return q
+	})
+	add("geodistance", func(b float64) bluge.Query {
+		q := bluge.NewGeoDistanceQuery(1, 1, "300km").SetField("loc")
+		sb(b, func(b float64) { q.SetBoost(b) })
+		return q
+	})
+	add("geopolygon", func(b float64) bluge.Query {
+		q := bluge.NewGeoBoundingPolygonQuery([]geo.Point{{Lon: -1, Lat: -1}, {Lon: 5, Lat: -1}, {Lon: 5, Lat: 4}, {Lon: -1, Lat: 4}}).SetField("loc")
+		sb(b, func(b float64) { q.SetBoost(b) })
+		return q
+	})
+	for _, m := range []struct {
+		text   string
+		and    bool
+		f, pre int
+	}{{"alfa bravo", false, 0, 0}, {"alfa bravo", true, 0, 0}, {"alfo brovo charlie", false, 1, 0}, {"alfo bravo", true, 1, 1},
+		{"alfa delta echo", false, 2, 0}, {t0 + " " + t1, true, 1, 0}} {
+		m := m
+		add(fmt.Sprintf("match(%s,and=%v,fuzz=%d,prefix=%d)", m.text, m.and, m.f, m.pre), func(b float64) bluge.Query {
+			q := bluge.NewMatchQuery(m.text).SetField("body").SetFuzziness(m.f).SetPrefix(m.pre)
+			if m.and {
+				q.SetOperator(bluge.MatchQueryOperatorAnd)
+			}
+			sb(b, func(b float64) { q.SetBoost(b) })
+			return q
+		})
+	}
+	for _, slop := range []int{0, 2} {
+		slop := slop
+		add(fmt.Sprintf("matchphrase(slop=%d)", slop), func(b float64) bluge.Query {
+			q := bluge.NewMatchPhraseQuery(t0 + " " + t1).SetField("ptext").SetSlop(slop)
+			sb(b, func(b float64) { q.SetBoost(b) })
+			return q
+		})
+	}
+	mpAlt := vocab[rng.Intn(2)]
+	add("multiphrase", func(b float64) bluge.Query {
+		q := bluge.NewMultiPhraseQuery([][]string{{t0, "zulu"}, {t1, mpAlt}}).SetField("ptext")
+		sb(b, func(b float64) { q.SetBoost(b) })
+		return q
+	})
+	add("matchall", func(b float64) bluge.Query {
+		q := bluge.NewMatchAllQuery()
+		sb(b, func(b float64) { q.SetBoost(b) })
+		return q
+	})
+	add("matchnone", func(b float64) bluge.Query {
+		q := bluge.NewMatchNoneQuery()
+		sb(b, func(b float64) { q.SetBoost(b) })
+		return q
+	})
+	// boolean queries nesting the kinds above: the outer boost varies, inner boosts are fixed
+	nk := len(kinds)
+	for i := 0; i < 10; i++ {
+		a, c, d := kinds[rng.Intn(nk)], kinds[rng.Intn(nk)], kinds[rng.Intn(nk)]
+		inner := []float64{0, 2, 0.5}[rng.Intn(3)]
+		shape := rng.Intn(3)
+		add(fmt.Sprintf("bool%d[%s | %s | %s]^inner=%v", shape, a.name, c.name, d.name, inner), func(b float64) bluge.Query {
+			q := bluge.NewBooleanQuery()
+			switch shape {
+			case 0:
+				q.AddMust(a.mk(inner)).AddShould(c.mk(0), d.mk(inner))
+			case 1:
+				q.AddShould(a.mk(inner), c.mk(0)).AddMustNot(d.mk(0))
+			default:
+				q.AddMust(a.mk(0), c.mk(inner)).AddShould(d.mk(0))
+			}
+			sb(b, func(b float64) { q.SetBoost(b) })
+			return q
+		})
+	}
+	// the varied boost on an inner query of a boolean query (the outer one carries none)
+	for i := 0; i < 6; i++ {
+		a, c := kinds[rng.Intn(nk)], kinds[rng.Intn(nk)]
+		add(fmt.Sprintf("must-only[%s]+filter[%s]", a.name, c.name), func(b float64) bluge.Query {
+			return bluge.NewBooleanQuery().AddMust(a.mk(b)).AddMustNot(c.mk(0))
+		})
+	}
+
+	for _, k := range kinds {
+		desc := map[string]interface{}{"kind": k.name}
+		base, err := bm25E2eSearch(w, rd, k.mk(0), false, desc)
+		if err != nil {
+			return fmt.Errorf("%s: %w", k.name, err)
+		}
+		if base == nil {
+			continue
+		}
+		w.Count("boost_kinds", 1)
+		if len(base) > 0 {
+			w.Count("boost_kinds_with_hits", 1)
+		}
+		keyKind := k.name
+		if i := strings.IndexAny(keyKind, "(["); i >= 0 {
+			keyKind = keyKind[:i]
+		}
+		for _, c := range []float64{1, 0.5, 2, 3} {
+			desc := map[string]interface{}{"kind": k.name, "boost": c}
+			got, err := bm25E2eSearch(w, rd, k.mk(c), false, desc)
+			if err != nil {
+				return fmt.Errorf("%s^%v: %w", k.name, c, err)
+			}
+			if got == nil {
+				continue
+			}
+			w.OracleEval(1)
+			if len(got) != len(base) {
+				bm25Fail(w, "law-boost-linear:"+keyKind, fmt.Sprintf("%d hits without boost, %d hits with boost %v", len(base), len(got), c), desc)
+				continue
+			}
+			for id, h := range base {
+				g, ok := got[id]
+				w.OracleEval(1)
+				if !ok {
+					bm25Fail(w, "law-boost-linear:"+keyKind, "document "+id+" no longer matches when the query is boosted", desc)
+					break
+				}
+				want := c * h.score
+				bad := g.score != want
+				if c == 3 {
+					bad = math.Abs(g.score-want) > 512*math.Abs(want)/(1<<53)
+				}
+				if bad {
+					bm25Fail(w, "law-boost-linear:"+keyKind, fmt.Sprintf("doc %s scores %v without boost and %v with boost %v (linear: %v)", id, h.score, g.score, c, want), desc)
+					break
+				}
+			}
+		}
+		// explanation derives the score for this kind too (boost 2)
+		desc["boost"] = 2.0
+		plain, err := bm25E2eSearch(w, rd, k.mk(2), false, desc)
+		if err != nil {
+			return err
+		}
+		expl, err := bm25E2eSearch(w, rd, k.mk(2), true, desc)
+		if err != nil {
+			return err
+		}
+		if plain == nil || expl == nil {
+			continue
+		}
+		n := 0
+		for id, h := range plain {
+			if n++; n > 4 {
+				break
+			}
+			he, ok := expl[id]
+			w.OracleEval(1)
+			meta := map[string]interface{}{"kind": k.name, "boost": 2.0, "doc": id}
+			if !ok || he.expl == nil {
+				bm25Fail(w, "e2e-explain-missing", "hit without explanation when ExplainScores is set", meta)
+				continue
+			}
+			if math.Float64bits(he.expl.Value) != math.Float64bits(h.score) {
+				bm25Fail(w, "explain-root-not-score", fmt.Sprintf("explanation value %v, score without explanation %v", he.expl.Value, h.score), meta)
+			}
+			bm25CheckTree(w, he.expl, meta)
+		}
 	}
 	return nil
 }
